@@ -62,6 +62,8 @@ class Prop(PropBase):
         else:
             x = g.standard_normal(shape) * 40
         dt = case["dtype"]
+        if dt.startswith("float") or dt in ("longdouble", "half"):
+            x = x * [1.0, 1.0, 1e-9, 1e-12][(case["seed"] // 3) % 4]      # weak signals too: the conversion is linear
         if dt.startswith("complex"):
             return (x + 1j).astype(dt), ax
         if dt == "bool":
@@ -103,8 +105,9 @@ class Prop(PropBase):
         out["scale"] = self_scale
         if case["kind"] == "tone" and N >= 3 and case["dtype"] in ("float32", "float64"):
             w = case["w"]
-            ph = np.exp(1j * 0.3) * 50 * np.exp(2j * np.pi * (w - N / 4.0) * (2 * m) / N)
-            out["tone_err"] = float(np.max(np.abs(ym - ph * np.ones(ym.shape))) / 50.0)
+            amp = 50 * [1.0, 1.0, 1e-9, 1e-12][(case["seed"] // 3) % 4]        # the amplitude _input gave the tone
+            ph = np.exp(1j * 0.3) * amp * np.exp(2j * np.pi * (w - N / 4.0) * (2 * m) / N)
+            out["tone_err"] = float(np.max(np.abs(ym - ph * np.ones(ym.shape))) / amp)
         return out
 
     def model_requests(self, case, code):
